@@ -383,7 +383,7 @@ func runC06(c *Ctx) {
 		fn := p.SSAFunc(su.Obj)
 		fi := p.Intervals().Analyze(fn)
 		fFL := p.Field("github.com/pion/rtcp", "ReceptionReport", "FractionLost")
-		okF, nF := true, 0
+		nF := 0
 		for _, b := range fn.Blocks {
 			for _, ins := range b.Instrs {
 				st, ok := ins.(*ssa.Store)
@@ -399,22 +399,45 @@ func runC06(c *Ctx) {
 					continue
 				}
 				nF++
-				cv, ok := st.Val.(*ssa.Convert)
-				if !ok {
-					okF = false
-					continue
+				// the stored byte is a constant or the conversion of a value within 0..255,
+				// on every way of computing it
+				var bad, good []string
+				seenV := map[ssa.Value]bool{}
+				var walk func(v ssa.Value)
+				walk = func(v ssa.Value) {
+					if seenV[v] {
+						return
+					}
+					seenV[v] = true
+					switch x := v.(type) {
+					case *ssa.Phi:
+						for _, e := range x.Edges {
+							walk(e)
+						}
+					case *ssa.Const:
+						if x.Value == nil || x.Int64() < 0 || x.Int64() > 255 {
+							bad = append(bad, "constant "+x.String())
+						} else {
+							good = append(good, x.Value.String())
+						}
+					case *ssa.Convert:
+						iv := fi.At(x.X, x.Block())
+						if iv.empty() || iv.Lo.Sign() < 0 || iv.Hi.Cmp(big.NewInt(255)) > 0 {
+							bad = append(bad, iv.String())
+						} else {
+							good = append(good, iv.String())
+						}
+					default:
+						bad = append(bad, "a value that is not a bounded conversion ("+v.String()+")")
+					}
 				}
-				iv := fi.At(cv.X, b)
-				if iv.empty() || iv.Lo.Sign() < 0 || iv.Hi.Cmp(big.NewInt(255)) > 0 {
-					okF = false
-				}
-				c.Check(!iv.empty() && iv.Lo.Sign() >= 0 && iv.Hi.Cmp(big.NewInt(255)) <= 0, "R6.2", "loss fraction fits in 0..255", st.Pos(), fmt.Sprintf("value in %s at the conversion to uint8", iv), fmt.Sprintf("the loss fraction can be %s at the conversion to uint8: it is reported modulo 256", iv))
+				walk(st.Val)
+				c.Check(len(bad) == 0 && len(good) > 0, "R6.2", "loss fraction fits in 0..255", st.Pos(), fmt.Sprintf("value in %s at the conversion to uint8", strings.Join(good, ", ")), fmt.Sprintf("the loss fraction can be %s at the conversion to uint8: it is reported modulo 256", strings.Join(bad, ", ")))
 			}
 		}
 		if nF == 0 {
 			c.Bad("R6.2", "loss fraction fits in 0..255", su.Pos(), "sendUpRTCP no longer fills ReceptionReport.FractionLost")
 		}
-		_ = okF
 		// guarded subtractions
 		info := su.Pkg.TypesInfo
 		facts := p.Facts().Analyze(su)
@@ -720,32 +743,67 @@ func checkNackRequests(c *Ctx, rule string) {
 			}
 			return true
 		})
-		okKeep := false
-		if getc != nil && inc != nil {
-			// Get(nacks[i], nil)
-			if ix, ok := unparen(getc.Args[0]).(*ast.IndexExpr); ok && types.ExprString(ix.Index) == types.ExprString(inc.X) {
-				st, _ := facts.At(inc)
-				res := &Term{K: 'r', Name: "res0", Pos: getc.Lparen}
-				if st != nil {
-					if st.HasFact(mkFact(false, "lt", TConst("0"), res)) || st.HasFact(mkFact(true, "eq", TConst("0"), res)) {
-						okKeep = true
+		// the point at which an entry is kept: `i++` of the in-place deletion loop
+		// (the entry asked about is list[i]), or `kept = append(kept, e)` of the
+		// copying filter (the entry asked about is e); filtered is the list the
+		// kept entries end up in
+		var keep ast.Node
+		var filtered ast.Expr
+		if getc != nil {
+			if ix, ok := unparen(getc.Args[0]).(*ast.IndexExpr); ok && inc != nil && types.ExprString(ix.Index) == types.ExprString(inc.X) {
+				keep, filtered = inc, ix.X
+			} else {
+				asked := types.ExprString(unparen(getc.Args[0]))
+				ast.Inspect(nw.Body(), func(n ast.Node) bool {
+					as, ok := n.(*ast.AssignStmt)
+					if !ok || len(as.Lhs) != 1 || len(as.Rhs) != 1 {
+						return true
 					}
-					for _, f := range st.Facts() {
-						if f.Op == "lt" && !f.Pos && f.A.Name == "0" && f.B != nil && st.EqualUnder(f.B, res) {
-							okKeep = true
+					call, ok := unparen(as.Rhs[0]).(*ast.CallExpr)
+					if !ok || len(call.Args) != 2 || call.Ellipsis.IsValid() {
+						return true
+					}
+					if id, isId := unparen(call.Fun).(*ast.Ident); !isId || id.Name != "append" || info.Uses[id] != types.Universe.Lookup("append") {
+						return true
+					}
+					if types.ExprString(as.Lhs[0]) == types.ExprString(call.Args[0]) && types.ExprString(unparen(call.Args[1])) == asked {
+						if keep != nil {
+							keep, filtered = nil, nil // more than one: not the idiom
+							return false
 						}
+						keep, filtered = as, as.Lhs[0]
 					}
-				}
-				_ = info
+					return true
+				})
 			}
 		}
-		c.Check(okKeep, rule, "nackWriter: a buffered request survives only if the packet is still missing", nw.Pos(), "i++ only when cache.Get(nacks[i], nil) returned 0", "a buffered request is forwarded upstream although the packet has arrived in the meantime")
+		okKeep := false
+		if keep != nil {
+			st, _ := facts.At(keep)
+			res := &Term{K: 'r', Name: "res0", Pos: getc.Lparen}
+			if st != nil {
+				if st.HasFact(mkFact(false, "lt", TConst("0"), res)) || st.HasFact(mkFact(true, "eq", TConst("0"), res)) {
+					okKeep = true
+				}
+				gt := facts.term(getc)
+				for _, f := range st.Facts() {
+					if f.Op == "lt" && !f.Pos && f.A.Name == "0" && f.B != nil && (st.EqualUnder(f.B, res) || (gt != nil && f.B.String() == gt.String())) {
+						okKeep = true
+					}
+				}
+			}
+		}
+		c.Check(okKeep, rule, "nackWriter: a buffered request survives only if the packet is still missing", nw.Pos(), "an entry is kept only when cache.Get(entry, nil) returned 0", "a buffered request is forwarded upstream although the packet has arrived in the meantime")
 		// what is sent is the filtered slice
 		okSend := false
 		ast.Inspect(nw.Body(), func(n ast.Node) bool {
-			if call, ok := n.(*ast.CallExpr); ok && fnIs(calleeOf(&CallSite{Call: call, In: nw}), "rtpconn", "rtpUpTrack", "sendNACKs") && getc != nil {
-				if ix, ok := unparen(getc.Args[0]).(*ast.IndexExpr); ok && types.ExprString(call.Args[0]) == types.ExprString(ix.X) && call.Pos() > getc.Pos() {
+			if call, ok := n.(*ast.CallExpr); ok && fnIs(calleeOf(&CallSite{Call: call, In: nw}), "rtpconn", "rtpUpTrack", "sendNACKs") && filtered != nil && call.Pos() > getc.Pos() {
+				if types.ExprString(call.Args[0]) == types.ExprString(filtered) {
 					okSend = true
+				} else if st, _ := facts.At(call); st != nil {
+					if a, b := facts.term(call.Args[0]), facts.term(filtered); a != nil && b != nil && st.EqualUnder(a, b) {
+						okSend = true
+					}
 				}
 			}
 			return true
